@@ -270,6 +270,16 @@ func runC07(r *core.Run) {
 				n := []int{64, 512, 4000}[r.Intn(3, "fan-in-entries")]
 				t, o = fanInCertTable(n), fmt.Sprintf("field:cert-table=fan-in-%d", n)
 			}
+			if len(certTable) >= 24 && r.Chance(12, "wrap-entry?") {
+				// one header entry whose offset and length are each far outside the table while their
+				// 32-bit sum wraps to a small number
+				x := []uint64{1, 16, 4096, 1 << 20, 1 << 31}[r.Intn(5, "wrap-x")]
+				small := []uint64{0, 10, uint64(len(certTable) - 1)}[r.Intn(3, "wrap-small")]
+				t = append([]byte(nil), certTable...)
+				binary.LittleEndian.PutUint32(t[16:], uint32(1<<32-x))
+				binary.LittleEndian.PutUint32(t[20:], uint32(x+small))
+				o = fmt.Sprintf("field:cert-table=wrap-entry(x=%d,small=%d)", x, small)
+			}
 			t = r.Blob(fmt.Sprintf("in%d", i), func() []byte { return t })
 			ops, inputLen = o, len(t)
 			name, call = "extractsev.FromCertTable", func() { extractsev.FromCertTable(t) }
